@@ -100,5 +100,13 @@ def fill(claim, na):
         TB + "The model is functional, so 'no write through the caller's dict' is an observation on the real function, not a theorem; other modules mutating a card would only be seen by the real-run comparison.",
         "DESIGN.md 6/C20",
     )
-    for p in ["C01", "C03", "C04", "C09", "C10", "C16", "C18", "C19"]:
+    claim(
+        "C18",
+        "proof",
+        "translator (Python ast -> Lean KExpr, regenerated each run and validated by Float evaluation against the Python functions) + kernel-decided theorem that every live call site stays inside its argument vector; JIT-vs-interpreter agreement tested",
+        "PARTIAL. Proved (decide +kernel over a table regenerated from the source, plus a soundness lemma for the index summary): at each of the ~190 (class, order, part) and splitting-label call sites, the largest args index the kernel reads is inside the vector it is given, so no compiled kernel reads out of bounds. Tested, not proved: Lean Float evaluation of every generated term = interpreter value (all translated kernels, sampled arguments), interpreter = compiled value for all njit kernels, and whole runs agree in both modes.",
+        TB + "LLVM/numba code generation is a parameter; kernels with loops/complex arithmetic are not translated (listed in evidence) and are covered by the JIT-vs-interpreter test only.",
+        "DESIGN.md 6/C18",
+    )
+    for p in ["C01", "C03", "C04", "C09", "C10", "C16", "C19"]:
         na(p, "check not yet built in this round (design in DESIGN.md section 6); will be claimed once its Lean model, theorems and correspondence exist")
